@@ -61,6 +61,20 @@ pub fn run(out: &mut Out, seed: u64, tier: &str) {
         queue.push((distort(&centre(*z, lig, g1, 1.0), 0.03, &mut rng), distort(&centre(*z, lig, g2, 1.0), 0.03, &mut rng)));
         if tier == "thorough" || k % 2 == 0 { queue.push((distort(&centre(*z, lig, "trigonal", 1.0), 0.03, &mut rng), distort(&centre(*z, lig, "tetrahedral", 1.0), 0.03, &mut rng))); }
     }
+    // a fragment in which a valence-limited atom has a choice between candidates (linear H3 with unequal arms, bifluoride, H between
+    // two carbons) next to a LARGE one (C12H26, C16H34: 38 and 50 atoms): what one fragment's atoms get must not depend on how many
+    // atoms the whole input has
+    {
+        let h3 = named("h3-unequal-arms", &[("H", 0.0, 0.0, 0.0), ("H", 0.74, 0.0, 0.0), ("H", -0.80, 0.0, 0.0)]);
+        let fhf = named("fhf-unequal-arms", &[("H", 0.0, 0.0, 0.0), ("F", 1.08, 0.0, 0.0), ("F", -1.12, 0.0, 0.0)]);
+        let chc = named("h-between-carbons", &[("H", 0.0, 0.0, 0.0), ("C", 1.05, 0.0, 0.0), ("C", -1.10, 0.0, 0.0), ("H", 1.6, 0.9, 0.0), ("H", -1.6, -0.9, 0.0)]);
+        for (k, small) in [h3, fhf, chc].iter().enumerate() {
+            for big_n in [12usize, 16] {
+                if tier != "thorough" && (k + big_n) % 2 == 1 { continue; }
+                queue.push((small.clone(), distort(&alkane(big_n), 0.02, &mut rng)));
+            }
+        }
+    }
     for pair in 0..(n_pairs + queue.len()) {
         // every fifth pair is systematic: a library molecule (lone pairs, pi systems) next to a four-coordinate metal centre —
         // the typing of such a centre (formal charge, d8-ness, square-planar vs tetrahedral) must not depend on its neighbour
@@ -71,7 +85,7 @@ pub fn run(out: &mut Out, seed: u64, tier: &str) {
             let m = centre(*rng.pick(&[28usize, 46, 78, 45, 77, 79, 29, 30, 26]), *rng.pick(&[1usize, 17, 9, 35]), *rng.pick(&["square", "tetrahedral"]), 1.0);
             distort(&m, rng.range(0.01, 0.1), &mut rng)
         } else { let m = random_mol(&mut rng); distort(&m, rng.range(0.0, 0.15), &mut rng) };
-        if a.n() + b0.n() > 28 || a.min_distance() < 0.5 || b0.min_distance() < 0.5 { continue; }
+        if a.n() + b0.n() > (if preset.is_some() { 60 } else { 28 }) || a.min_distance() < 0.5 || b0.min_distance() < 0.5 { continue; }
         let sep = 10f64.powf(rng.range(1.7, 4.0));
         let dir = { let r = random_rotation(&mut rng); [r[0][0] * sep, r[1][0] * sep, r[2][0] * sep] };
         let b = moved(&b0, &random_rotation(&mut rng), dir);
